@@ -36,6 +36,10 @@ type coreScript struct {
 	now     int64
 	fee     int64
 	nextBet int
+	// current parameters (for the PARAMS line of a mid-history change)
+	pBetBatch                       uint32
+	pBetMin, pMinDeposit, pHouseFee int64
+	pMaxW, pMaxPart, pObBatch, pThr uint64
 }
 
 func newCoreScript(out *Out, h int, minDeposit, houseFeeRaw, betMin, betFee int64, thr uint64, betBatch uint32, obBatch uint64) *coreScript {
@@ -61,6 +65,7 @@ func newCoreScript(out *Out, h int, minDeposit, houseFeeRaw, betMin, betFee int6
 	op.BatchSettlementCount = obBatch
 	op.RequeueThreshold = thr
 	e.App.OrderbookKeeper.SetParams(e.Ctx, op)
+	c.pBetBatch, c.pBetMin, c.pMinDeposit, c.pHouseFee, c.pMaxW, c.pMaxPart, c.pObBatch, c.pThr = betBatch, betMin, minDeposit, houseFeeRaw, 2, 100, obBatch, thr
 	out.Op("PARAMS %d %d %d %d %d %d %d %d %d", betBatch, betMin, betFee, minDeposit, houseFeeRaw, 2, 100, obBatch, thr)
 	for i, a := range e.Accts {
 		out.Op("BAL %d %s", i, e.Bal(a))
@@ -211,6 +216,15 @@ func (c *coreScript) withdraw(m *coreMarket, who int, idx uint64, mode int, amou
 	if err == nil {
 		withdrawMonitor(c.out, c.h, c.e, c.ix, pre, who, 0, m.uid, idx)
 	}
+}
+
+// setMaxWithdrawals: governance changes the house parameter MaxWithdrawalCount in mid-history
+func (c *coreScript) setMaxWithdrawals(n uint64) {
+	hp := c.e.App.HouseKeeper.GetParams(c.e.Ctx)
+	hp.MaxWithdrawalCount = n
+	c.e.App.HouseKeeper.SetParams(c.e.Ctx, hp)
+	c.pMaxW = n
+	c.out.Op("PARAMS %d %d %d %d %d %d %d %d %d", c.pBetBatch, c.pBetMin, c.fee, c.pMinDeposit, c.pHouseFee, c.pMaxW, c.pMaxPart, c.pObBatch, c.pThr)
 }
 
 func (c *coreScript) endBlock() {
@@ -385,6 +399,23 @@ func runCoreScripted(seed uint64, n int, out *Out) {
 			c.grant(1, 2, 0, 500, 100)
 			c.depositFor(m, 2, 1, 500) // uses the grant up exactly
 			c.depositFor(m, 2, 1, 100)
+			c.endBlock()
+		},
+		// 10: the withdrawal limit is lowered below the number of withdrawals a deposit already made: every further
+		//     withdrawal of that deposit is refused; raised again, exactly the difference is allowed
+		func(h int) {
+			c := newCoreScript(out, h, 100, 0, 2, 1, 0, 1000, 100)
+			m := c.market(2)
+			c.deposit(m, 1, 10000)
+			c.setMaxWithdrawals(3)
+			c.withdraw(m, 1, 1, 2, 100)
+			c.withdraw(m, 1, 1, 2, 100)
+			c.setMaxWithdrawals(1)
+			c.withdraw(m, 1, 1, 2, 100)
+			c.withdraw(m, 1, 1, 1, 0)
+			c.setMaxWithdrawals(3)
+			c.withdraw(m, 1, 1, 2, 100)
+			c.withdraw(m, 1, 1, 2, 100)
 			c.endBlock()
 		},
 	}
